@@ -15,6 +15,8 @@ pub struct C06;
 struct V<'a> {
     st: &'a mut Stats,
     failures: usize,
+    /// (step failed, state after the step) for idx >= 1
+    obs: Vec<(bool, crate::exec::Snap)>,
 }
 
 impl<'a> Visitor for V<'a> {
@@ -28,6 +30,7 @@ impl<'a> Visitor for V<'a> {
                 return Ok(());
             }
         };
+        self.obs.push((matches!(cx.res, CallRes::Err(..)), post.clone()));
         let k = match cx.res {
             CallRes::Err(k, _) => *k,
             _ => return Ok(()),
@@ -72,9 +75,30 @@ impl<'a> Visitor for V<'a> {
 }
 
 fn run_one(h: &History, st: &mut Stats) -> Result<(usize, usize), String> {
-    let mut v = V { st, failures: 0 };
+    let mut v = V { st, failures: 0, obs: Vec::new() };
     let out = run_history(h, true, &mut v)?;
-    Ok((out.sign_calls, v.failures))
+    let (failures, obs) = (v.failures, v.obs);
+    // the same history applied WITHOUT observing the record before the failing call (observation can
+    // mask lazily cached state): after the failed call the record must still be coherent and equal
+    // to what the observed run holds
+    if h.fault_at.is_none() {
+        let mut done = 0;
+        for (i, (failed, snap)) in obs.iter().enumerate() {
+            if !*failed || done >= 2 {
+                continue;
+            }
+            done += 1;
+            if let Some((res, cold)) = crate::exec::run_blind(h, i + 1, i % 2 == 0)? {
+                st.evals(1);
+                st.label("blind-run-to-failing-call");
+                if !matches!(res.last(), Some(CallRes::Err(..))) {
+                    continue; // not the same course of events (randomised signatures never change it; be safe)
+                }
+                cold_consistent(&cold, Some(snap)).map_err(|m| format!("step {} ({}) failed; {m}", i + 1, h.ops[i].name()))?;
+            }
+        }
+    }
+    Ok((out.sign_calls, failures))
 }
 
 impl Property for C06 {
@@ -85,7 +109,7 @@ impl Property for C06 {
         "fault_enumeration"
     }
     fn rule(&self) -> String {
-        "cases: call histories as for C05 (all 22 mutators, arbitrary arguments incl. ill-typed reserved values, id removal / other id, oversize values, sequence number 2^64-1, keys of every family incl. the variable-length-signature scheme), each run once fault-free and then re-run with an injected signer failure at EVERY signing call of the history (fault key wrapping the real key); bounded-exhaustive part: all sequences of length <= 2 over the operation alphabet (48 concrete calls) from 5 initial records, again with every fault position. Oracle: whenever a call returns Err, the record is observably identical to the pre-state (seq, node id, signature, pairs, encoding, public key) and still verifies (library and independent verifier). Non-trivial: a history in which at least one update fails (every update would have changed at least the sequence number, so atomicity is at stake); the evidence lists the (mutator x error cause) cells reached. Distinct by hash of the history.".into()
+        "cases: call histories as for C05 (all 22 mutators, arbitrary arguments incl. ill-typed reserved values, id removal / other id, oversize values, sequence number 2^64-1, keys of every family incl. the variable-length-signature scheme), each run once fault-free and then re-run with an injected signer failure at EVERY signing call of the history (fault key wrapping the real key); bounded-exhaustive part: all sequences of length <= 2 over the operation alphabet (52 concrete calls) from 5 initial records, again with every fault position. Oracle: whenever a call returns Err, the record is observably identical to the pre-state (seq, node id, signature, pairs, encoding, public key) and still verifies (library and independent verifier). Non-trivial: a history in which at least one update fails (every update would have changed at least the sequence number, so atomicity is at stake); the evidence lists the (mutator x error cause) cells reached. Distinct by hash of the history.".into()
     }
     fn assumptions(&self) -> Vec<String> {
         vec![
